@@ -349,6 +349,8 @@ func checkCase(c *Case) (err error) {
 		{"no-route", "GET", "/nothing", fox.NoRouteHandler, "H:noroute"},
 		{"no-method", "POST", "/redir/", fox.NoMethodHandler, "H:nomethod"},
 		{"options", "OPTIONS", "/redir/", fox.OptionsHandler, "H:options"},
+		// the server-wide form: answered by the options handler alone, once
+		{"options for the target *", "OPTIONS", "*", fox.OptionsHandler, "H:options"},
 		// automatic OPTIONS is on, but no method has a route for this path: the request ends in the no-route handler, with its chain
 		{"no-route reached by OPTIONS", "OPTIONS", "/nothing/at/all", fox.NoRouteHandler, "H:noroute"},
 		{"no-route reached by a custom method", "BREW", "/nothing", fox.NoRouteHandler, "H:noroute"},
